@@ -124,6 +124,10 @@ def verify_contract(c, src_index, unroll=0, timeout_ms=20000, registry=REGISTRY,
                 if va is not None and va.arg in pk:
                     names = [x.arg for x in f.node.args.posonlyargs + f.node.args.args]
                     pos = [pk.pop(nm) for nm in names] + list(pk.pop(va.arg))
+                kwn = f.node.args.kwarg
+                if kwn is not None and isinstance(pk.get(kwn.arg), dict):
+                    extra = pk.pop(kwn.arg)              # the contract's value for **kwargs is spread into keyword arguments
+                    pk.update(extra)
                 res = it.invoke(f, pos, pk, None)
                 outcome = ('return', res)
             except PyExc as e:
